@@ -5,9 +5,11 @@ import (
 	"fmt"
 	"go/ast"
 	"go/types"
+	"net/url"
 	"reflect"
 	"sort"
 	"strconv"
+	"strings"
 
 	"github.com/octohelm/gengo/pkg/namer"
 	gengotypes "github.com/octohelm/gengo/pkg/types"
@@ -42,7 +44,7 @@ func (d *Dumper) TypesTypeLit(tpe types.Type) string {
 
 func (d *Dumper) TypeLit(tpe typesutil.Type) string {
 	if tpe.PkgPath() != "" {
-		return d.Name(gengotypes.Ref(tpe.PkgPath(), tpe.Name()))
+		return d.Name(gengotypes.Ref(tpe.PkgPath(), unescapeTypeArgs(tpe.Name())))
 	}
 
 	switch tpe.Kind() {
@@ -113,6 +115,19 @@ func SubValue(sub bool) ValueLitOptFn {
 	return func(o *ValueLitOpt) {
 		o.SubValue = sub
 	}
+}
+
+// unescapeTypeArgs undoes the linker-style escaping reflect applies to the package paths inside the
+// type arguments of an instantiated generic type (`G[gopkg.in/yaml%2ev3.Node]`): the dots of the last
+// path element, '"', '%' and non-ASCII bytes are spelled %xx. An import path cannot contain '%'.
+func unescapeTypeArgs(name string) string {
+	if !strings.Contains(name, "%") {
+		return name
+	}
+	if s, err := url.PathUnescape(name); err == nil {
+		return s
+	}
+	return name
 }
 
 var basicKinds = map[reflect.Kind]bool{
